@@ -669,12 +669,13 @@ func checkC07(c *core.Ctx) error {
 		return err
 	}
 	c.Explanation = "For every optimizer driver (a function with a hook, an epsilon or a constraints parameter that evaluates an objective parameter in a loop) a must-dataflow analysis over its control-flow graph tracks which point variables the current evaluation results (value, gradient, Jacobian, Hessian and quantities derived from them) belong to, and which point variables are known to satisfy the user's constraints. " +
-		"Facts are killed by every write to a point, transferred by Set/Clone/swap and intersected at joins, so they hold on all paths. Decided: (R1) every point returned with a nil error satisfies the constraints; (R2) the point handed to a hook is the point at which the results handed with it were computed; (R3) the stopping test uses results computed at the point that is returned when the test succeeds; (R4) the acceptance conditions of the two phases of the line search are the same strong Wolfe conditions; (R5) the BFGS updates, interpreted symbolically on generic 2x2 data, return a symmetric matrix that satisfies the secant equation."
+		"Facts are killed by every write to a point, transferred by Set/Clone/swap and intersected at joins, so they hold on all paths. Decided: (R1) every point returned with a nil error satisfies the constraints; (R2) the point handed to a hook is the point at which the results handed with it were computed; (R3) the stopping test uses results computed at the point that is returned when the test succeeds; (R4) the acceptance conditions of the two phases of the line search are the same strong Wolfe conditions; (R5) the BFGS updates, interpreted symbolically on generic 2x2 data, return a symmetric matrix that satisfies the secant equation; (R6) the interpolation step of the line search returns the stationary point of its quadratic model."
 	c.Rule("C07.R1", "a point returned with a nil error is known to satisfy the user's constraints on every path", 10)
 	c.Rule("C07.R2", "the point passed to a hook is the point at which the value/gradient passed with it were evaluated", 6)
 	c.Rule("C07.R3", "the stopping test is made on results evaluated at the point that is returned when it succeeds", 6)
 	c.Rule("C07.R4", "line search: bracketing phase and zoom phase accept a step under the same (strong Wolfe) conditions", 2)
 	checkSecantEquation(c)
+	checkQuadraticMin(c)
 	nfun := 0
 	for _, p := range c.LibPkgs() {
 		if !strings.Contains(p.PkgPath, "/algorithm/") {
